@@ -9,3 +9,20 @@ Definition P (x y z : Z) : vecZ := (x, y, z).
 (* [y1 (without |v2|); x; y2 (times |v2|); |v2|^2; |n1|^2; |n2|^2] *)
 Definition run_torsion (p1 p2 p3 p4 : vecZ) : list Z :=
   [t1yZ p1 p2 p3 p4; t1xZ p1 p2 p3 p4; t2yZ p1 p2 p3 p4; v2l2Z p1 p2 p3 p4; n1l2Z p1 p2 p3 p4; n2l2Z p1 p2 p3 p4].
+
+(* ---- clashes *)
+From Coq Require Import QArith.
+From RV Require Import Base.PyStr Model.Clash.
+Definition mkatom (res : nat) (nuc : bool) (name : str) (occ100 : option Z) (x y z : Z) : catom :=
+  {| a_res := res; a_nuc := nuc; a_name := name;
+     a_occ := match occ100 with Some v => Some (v # 100) | None => None end; a_pos := (x, y, z) |}.
+Definition mkopts (n : nat) : opts :=
+  {| o_ignore_occ := Nat.testbit n 0; o_ignore_auto := Nat.testbit n 1; o_nucleic_only := Nat.testbit n 2;
+     o_same_name := Nat.testbit n 3; o_molprobity := Nat.testbit n 4 |}.
+Definition run_clashes (n : nat) (atoms : list catom) : val :=
+  match find_clashes (mkopts n) atoms with
+  | Ok l => vlist (vpair vnat vnat) l
+  | Raise e => VE (exn_name e)
+  end.
+(* all 32 option sets at once *)
+Definition run_clashes_all (atoms : list catom) : val := VL (map (fun n => run_clashes n atoms) (seq 0 32)).
